@@ -588,13 +588,15 @@ func runQuery(c *mon.Case, r *rand.Rand, w *world, nfaces int, t *target, fo *fi
 		tag = "furthest"
 	}
 	tag += "/" + t.kind
-	// the same question put again to the same query object must get the same answer
+	// the same question put again to the same query object must again give the k best distances (which of
+	// several equally distant edges or containing shapes is named may legitimately differ for C08; that the
+	// answer is a function of geometry and options only is C13's subject)
 	if again := find(q0); len(again) != len(got) {
 		c.Violation(tag+"/FindEdges/second-call-on-same-query-differs/wrong-answer", fmt.Sprintf("FindEdges returned %d results, the same call repeated on the same query object %d", len(got), len(again)), det(nil))
 	} else {
 		for i := range got {
-			if got[i].Distance() != again[i].Distance() || got[i].ShapeID() != again[i].ShapeID() || got[i].EdgeID() != again[i].EdgeID() {
-				c.Violation(tag+"/FindEdges/second-call-on-same-query-differs/wrong-answer", fmt.Sprintf("result %d differs between two identical calls on one query object", i), det(nil))
+			if got[i].Distance() != again[i].Distance() {
+				c.Violation(tag+"/FindEdges/second-call-on-same-query-differs/wrong-answer", fmt.Sprintf("the distance of result %d differs between two identical calls on one query object", i), det(nil))
 				break
 			}
 		}
